@@ -22,6 +22,8 @@ KANI_GROUPS = {
                       trusted=["kani/histogram: the 16 power-of-two bounds of metrics::new_histogram_bound (fixed loop bound 17, unwinding assertions on); atomics executed sequentially"]),
     "ttl": dict(file="src/ttl.rs", include="kani/ttl.rs", args=[], timeout=1500,
                 trusted=["kani/ttl: SystemTime::now is stubbed by a settable clock (faithful: Time only calls now()/elapsed()/duration_since()); seconds below 2^40 (year 36812); the OS clock is assumed monotone between the two reads of one scenario (elapsed().unwrap() panics otherwise)"]),
+    "sketch": dict(file="src/sketch.rs", include="kani/sketch.rs", args=[], timeout=1500,
+                   trusted=["kani/sketch: rows of 4 bytes (8 counters); the addressing code does not depend on the row length; unwinding assertions on"]),
     "bbloom": dict(file="src/bbloom.rs", include="kani/bbloom.rs", args=[], timeout=1200,
                    trusted=["kani/bbloom: little-endian target (x86-64) byte order; layouts of 8 (quick) and 16 (thorough) words; Bloom::new builds 2^k-bit arrays whose addressing code does not depend on the length"]),
 }
@@ -39,10 +41,10 @@ REPLAY_GROUPS = {
 
 PROPS = {
     "C01": dict(units=["u4_policy", "u19_async_policy", "u8_builder", "u8_builder_async", "u6_store", "u7_glue", "u19_async"], kani=[], replay=["policy", "cache", "async_cache"]),
-    "C07": dict(units=["u4_policy", "u1_estimator", "u19_async_policy", "u8_builder", "u8_builder_async", "u6_store", "u7_glue", "u19_async"], kani=[], replay=["policy", "estimator", "cache", "async_cache"]),
-    "C13": dict(units=["u1_estimator", "u8_builder", "u8_builder_async"], kani=["bbloom"], replay=["estimator", "cache"]),
-    "C14": dict(units=["u1_estimator"], kani=["bbloom"], replay=["estimator"]),
-    "C20": dict(units=["u1_estimator", "u8_builder", "u7_glue", "u19_async", "u8_builder_async", "u6_store"], kani=["bbloom", "ttl"], replay=["estimator", "cache", "async_cache"], probes=[("cache", "huge_cost_update_keeps_the_worker_alive")],
+    "C07": dict(units=["u4_policy", "u1_estimator", "u19_async_policy", "u8_builder", "u8_builder_async", "u6_store", "u7_glue", "u19_async"], kani=["sketch"], replay=["policy", "estimator", "cache", "async_cache"]),
+    "C13": dict(units=["u1_estimator", "u8_builder", "u8_builder_async"], kani=["bbloom", "sketch"], replay=["estimator", "cache"]),
+    "C14": dict(units=["u1_estimator"], kani=["bbloom", "sketch"], replay=["estimator"]),
+    "C20": dict(units=["u1_estimator", "u8_builder", "u7_glue", "u19_async", "u8_builder_async", "u6_store"], kani=["bbloom", "ttl", "sketch"], replay=["estimator", "cache", "async_cache"], probes=[("cache", "huge_cost_update_keeps_the_worker_alive")],
                 guards=[("cache", "extreme_configurations_work"), ("async_cache", "async_extreme_configurations_work")]),
     "C02": dict(units=["u6_store", "u7_glue", "u19_async", "u8_builder", "u8_builder_async", "u10_valueref"], kani=["keys"], replay=["ttl", "async_sweep", "cache", "async_cache"]),
     "C03": dict(units=["u6_store", "u7_glue", "u19_async", "u10_valueref"], kani=["ttl"], replay=["ttl", "async_sweep"]),
@@ -52,9 +54,9 @@ PROPS = {
     "C18": dict(units=["u6_store", "u7_glue", "u19_async", "u8_builder", "u8_builder_async"], kani=["keys"], replay=["ttl", "async_sweep", "cache", "async_cache"]),
     "C06": dict(units=["u7_glue", "u6_store", "u4_policy", "u19_async", "u19_async_policy"], kani=["keys"], replay=["ttl", "async_sweep", "policy", "cache", "async_cache"]),
     "C08": dict(units=["u7_glue", "u6_store", "u19_async", "u8_builder", "u8_builder_async"], kani=[], replay=["ttl", "async_sweep", "cache", "async_cache"]),
-    "C11": dict(units=["u7_glue", "u6_store", "u4_policy", "u1_estimator", "u19_async", "u19_async_policy", "u9_metrics", "u8_builder", "u8_builder_async"], kani=["histogram"], replay=["ttl", "async_sweep", "estimator", "cache", "async_cache", "policy"],
+    "C11": dict(units=["u7_glue", "u6_store", "u4_policy", "u1_estimator", "u19_async", "u19_async_policy", "u9_metrics", "u8_builder", "u8_builder_async"], kani=["histogram", "sketch"], replay=["ttl", "async_sweep", "estimator", "cache", "async_cache", "policy"],
                 probes=[("cache", "insert_after_clear_is_kept")]),
-    "C15": dict(units=["u7_glue", "u1_estimator", "u8_builder", "u19_async", "u8_builder_async", "u9_metrics"], kani=[], replay=["estimator", "cache"]),
+    "C15": dict(units=["u7_glue", "u1_estimator", "u8_builder", "u19_async", "u8_builder_async", "u9_metrics"], kani=["sketch"], replay=["estimator", "cache"]),
     "C16": dict(units=["u7_glue", "u4_policy", "u6_store", "u8_builder", "u19_async", "u19_async_policy", "u8_builder_async"], kani=[], replay=["policy", "ttl", "async_sweep", "cache", "async_cache"]),
     "C17": dict(units=["u7_glue", "u4_policy", "u8_builder", "u19_async", "u19_async_policy", "u9_metrics", "u8_builder_async"], kani=["histogram"], replay=["policy", "cache", "async_cache"]),
     # guards: bounded stand-ins that run on EVERY check of the property, for code no contract reaches (spawn loops, tickers, channels)
@@ -75,5 +77,16 @@ ASSUMPTIONS = {
 # everything fits) are statements over exactly those charges.
 IMPLIES = {
     "C16": ("C01", "C07", "C04"),
+}
+
+# Second opinion: for these functions a COMPLETE Kani harness (full input domain of the real function, loop-free or with exact
+# unwinding) decides the same statements as the Verus clauses.  When Verus fails to re-prove a clause of such a function (for
+# instance after `& 0x0f` was rewritten as `% 16`: the bit-vector proof hints no longer match) while every listed harness passes
+# on the same tree, the failure is proof brittleness, not a violation; the check reports a SECOND-OPINION note instead.
+SECOND_OPINION = {
+    "CountMinRow::get": ("sketch", ["sketch_row_get"]),
+    "CountMinRow::increment": ("sketch", ["sketch_row_increment"]),
+    "CountMinRow::reset": ("sketch", ["sketch_row_reset_clear"]),
+    "CountMinRow::clear": ("sketch", ["sketch_row_reset_clear"]),
 }
 
